@@ -36,3 +36,4 @@ CFG = dict(
                 "size, or of bytes appended to a full-size ECDSA digest; which sentinel wins when several components are wrong; behaviour for a "
                 "nonce/tag handed to an algorithm that has none. Empty symmetric keys cannot be built as jwk.Key and are not covered.",
      timeout_quick=600, timeout_thorough=2400)
+CFG["rule"] += ' RSA keys of 2047 and 2055 bits (modulus length not a multiple of eight) take part in every RSA case class, with message lengths at the exact maximum.'
